@@ -23,6 +23,10 @@ PROPS = {
         level_text="Exploration by runtime monitoring. Every answer of a fresh PiecewiseEvaluator along generated histories (9 movement policies, up to 1e5 queries in thorough) is compared with the reference model and with direct evaluation; in addition the evaluator's reachable (cursor, last argument) states are explored breadth-first through hook H1 (hashing only) applying every critical query in every state, which covers every history over that alphabet for the explored functions.",
         level_note='Trusted: H1 exposes the whole mutable state (if a change adds state, the fixpoint argument no longer holds; the random histories remain); reference model sel().',
        
+        # two builds: with the library's observation hooks (state / branch labels available) and without them, i.e.
+        # exactly the configuration a user compiles; half of the workload each, different seeds
+        configs=[dict(profile="verif", features="hooks", label="hooks-", scale_mul=0.5),
+                 dict(profile="verif", features=None, label="", scale_mul=0.5, seed_add=500009)],
         kind=ONLINE,
         rule=("cases = distinct (function, query history) pairs plus distinct explored functions; workload A runs "
               "generated hostile histories (9 movement policies, 1..300 queries, 1e5 in thorough) through a fresh "
@@ -51,6 +55,10 @@ PROPS = {
         level_text="Exploration by runtime monitoring: C03's histories and state exploration with NaN/+-inf in the alphabet (every non-NaN answer after a NaN compared bit for bit with direct evaluation), direct evaluation and evaluate_v on every f64 class, and the workloads of all 18 other drivers re-run with only panics transferred; documented rejections exercised and recorded. This check found defect D2 on the pinned tree.",
         level_note="Trusted: 'well-formed finite input' is what the other drivers' generators produce; profile with debug assertions and overflow checks on (superset of release panics).",
        
+        # two builds: with the library's observation hooks (state / branch labels available) and without them, i.e.
+        # exactly the configuration a user compiles; half of the workload each, different seeds
+        configs=[dict(profile="verif", features="hooks", label="hooks-", scale_mul=0.5),
+                 dict(profile="verif", features=None, label="", scale_mul=0.5, seed_add=500009)],
         kind=ONLINE, sweep=True,
         rule=("cases = distinct (function, history containing NaN/inf) pairs, explored functions with NaN in the "
               "alphabet, and (function, argument list) pairs for direct evaluation / evaluate_v; plus the panic "
@@ -197,6 +205,10 @@ PROPS = {
         level_text='Exploration by runtime monitoring of IntOfLogPoly4::evaluate: every float within 8 ulps of v=1 and of both switch points for a corpus of forms, +-3000 ulps randomly, dense sweep of x in [-40,40], 1e-300..1e300, with one-hot, benchmark-magnitude, integral-produced and random forms; error must be <= 1e-12 * sum|terms| and exactly k at v=1.',
         level_note='Trusted: mpmath series/closed form at 400 bits (guard at 900 bits); the hook only labels the branch, it is not the oracle.',
        
+        # two builds: with the library's observation hooks (state / branch labels available) and without them, i.e.
+        # exactly the configuration a user compiles; half of the workload each, different seeds
+        configs=[dict(profile="verif", features="hooks", label="hooks-", scale_mul=0.5),
+                 dict(profile="verif", features=None, label="", scale_mul=0.5, seed_add=500009)],
         kind=OFFLINE, oracle="c10.py",
         rule=("cases = distinct ((k,c1..c4,u) bits, v bits) evaluations of IntOfLogPoly4; v covers +-3000 ulps of 1 and "
               "of both series/closed-form switch points (located by bisection on the computed -ln v), dense sweep of "
